@@ -247,6 +247,7 @@ def directed_doc(rng):
     g.emit("):")
     g.funcs.append({"name": "test_close_only2", "line0": fline, "shape": "multi", "kind": "test", "declared": ["fb", "fc"], "simple": True})
     g.add_stmt("z = call(fa)", "fa", "must", "test_close_only2", 4)
+    g.add_stmt("assert fa.lo < fa.hi", "fa", "must", "test_close_only2", 4, all_occurrences=True)
     g.emit("    pass")
     g.emit("")
     return g
